@@ -319,7 +319,7 @@ bool Xml::Private::parse(const char* data, Element& element)
         pos.pos = end + 2;
         break;
       }
-      pos.pos = end + 1;
+      pos.pos = *end == '?' ? end + 1 : end; // a line break is left to skipSpace, which counts it
       skipSpace();
     }
     skipSpace();
